@@ -9,6 +9,10 @@ PARTIAL = ('Static analysis decides only the structural clauses listed in DESIGN
            'property: breaking it breaks the behaviour for some input); the remaining, value-level clauses are not decided.')
 
 CHECKS = {
+    'C02': ('other', 'constant evaluation of the window bounds and tolerance + comparison normalisation on loop-exit edges + who-uses rule over MIR',
+            'R2a window = settlement date -/+ Duration::days(30) from exactly two public functions; R2b bookkeeping and summary use only those (no private date '
+            'arithmetic) on Tx.settlement_date; R2c both scan loops stop strictly outside the bounds (day +-30 inclusive); R2d the specified-loss tolerance '
+            'evaluates to 0.001, is strict, and applies only to un-forced values. ' + PARTIAL % 'C02'),
     'C04': ('other', 'ADT-construction closure + sibling field-use agreement over all AcbWriter impls + variant taint over MIR (+ compile-fail witnesses in thorough)',
             'R4a a ConstrainedDecimal (every balance/ACB/amount) can only be created by the checking constructor: all aggregates enumerated, no '
             'field store / &mut borrow / DerefMut-style impl / transmute / unsafe; R4b every output mode (text, CSV, web-UI serialiser) exports '
@@ -34,10 +38,24 @@ CHECKS = {
             '(re-keyed, sorted before use, exact reduction, per-element-key update) or reported; stdout/file sinks only (stderr sinks are '
             'reviewed table entries). With the census of other randomness sources (none reachable) this is sufficient for byte-identical '
             'output for every hash seed, under the stated trusted base.'),
+    'C11': ('other', 'constant-set agreement between writer and reader tables + per-column field mapping agreement + field coverage over MIR',
+            'R11a export list = reader set minus deprecated "date"; R11b one writer arm per exported column; R11c the reader consumes every recognised column and '
+            'maps each to the field the writer prints it from; R11d every optional column has an in-use trigger guarded by that same field; R11e every CsvTx / Tx / '
+            'specifics field is carried; R11f one CSV writer for transactions. ' + PARTIAL % 'C11'),
+    'C12': ('other', 'inter-procedural field provenance of the look-up date + edge conditions (is_zero, is_some, == USD) + constant evaluation of the look-back range',
+            'R12a the rate look-up date derives from CsvTx.trade_date on every chain; R12b a rate from the per-year map is returned only on the non-zero edge; '
+            'R12c the look-back is 7 iterations of minus one day ending in Err; R12d the loader runs only without an explicit rate and for USD. ' + PARTIAL % 'C12'),
+    'C13': ('other', 'who-may-call chain of the remote download + edge conditions (contains_key / force_download) + must-follow insert',
+            'R13a one download site reached through one chain guarded by !contains_key(year) and followed by memoising the year (<= 1 download per year per run); '
+            'R13b cached rates are returned only if the cache contains the requested date or the year was downloaded in this run; R13c the cache is not read when '
+            'forced; R-TS no product caller of test hooks. The stale-memo defect (DESIGN.md section 7) is outside these clauses. ' + PARTIAL % 'C13'),
     'C14': ('proof', 'path taint of the live cache file name to file-system sinks + must-precede (dominator) check of create/flush/fsync/rename in write_rates',
             'The live rates-<year>.csv name reaches only read-only sinks and the destination of rename(); write_rates writes a temp file, '
             'flushes, fsyncs and renames in that order on every non-error path and discards no Result on the way. Under POSIX rename '
             'atomicity no prefix of a new cache file is ever observable under the live name, for every crash point.'),
+    'C16': ('other', 'must-precede (dominator + data dependence) of parse_initial_status before processing in each front end; use-set rule on the opening-position map',
+            'R16a every front end starts processing only after, and with the Ok payload of, parse_initial_status; R16b the opening-position map is only queried with '
+            'get(&current security), whose result goes to that security\'s bookkeeping call. ' + PARTIAL % 'C16'),
     'C18': ('other', 'index-stability taint (length-changing adaptor before enumerate) + who-may-index rules over MIR',
             'R18a header-name->index maps are built from positions in the unfiltered header row; R18b the converter reads cells only by '
             'header name; R18c rows are indexed only with the stored index. ' + PARTIAL % 'C18'),
